@@ -16,7 +16,7 @@ def T(module, *names, partial=False):
           "Kanzi.Properties.C01_none": "Kanzi.C01none", "Kanzi.Properties.C03_bound": "Kanzi.C03", "Kanzi.Properties.C19_levels": "Kanzi.C19",
           "Kanzi.Properties.ConstsTie": "Kanzi.ConstsTie", "Kanzi.Properties.BitOpsTie": "Kanzi.BitOpsTie", "Kanzi.Properties.C12_range": "Kanzi.C12", "Kanzi.Properties.C13_rlt": "Kanzi.C13",
           "Kanzi.Properties.C12_ans1": "Kanzi.C12", "Kanzi.Properties.C12_cm": "Kanzi.C12", "Kanzi.Properties.C13_srt": "Kanzi.C13", "Kanzi.Properties.C01_blockgen": "Kanzi.C01gen",
-          "Kanzi.Properties.C19_paths": "Kanzi.C19", "Kanzi.Properties.C13_alias": "Kanzi.C13"}[module]
+          "Kanzi.Properties.C19_paths": "Kanzi.C19", "Kanzi.Properties.C13_alias": "Kanzi.C13", "Kanzi.Properties.C13_lzp": "Kanzi.C13", "Kanzi.Properties.C13_fsd": "Kanzi.C13"}[module]
     return [{"module": module, "name": n if n.startswith("Kanzi.") else ns + "." + n, "partial": partial or n.endswith("_partial")} for n in names]
 
 
@@ -62,6 +62,8 @@ RLT = {"name": "rlt", "kmodel": "rlt", "timeout": 3600}
 ANS1 = {"name": "ans1", "kmodel": "ans1", "timeout": 3600}
 IMAGEGEN = {"name": "imagegen", "kmodel": "imagegen", "timeout": 3600}
 ALIAS = {"name": "alias", "kmodel": "alias", "timeout": 3600}
+LZP = {"name": "lzp", "kmodel": "lzp", "timeout": 3600}
+FSD = {"name": "fsd", "kmodel": "fsd", "timeout": 3600}
 SRT = {"name": "srt", "kmodel": "srt", "timeout": 3600}
 CMPRED = {"name": "cmpred", "kmodel": "cmpred", "timeout": 3600}
 MNONE = "Kanzi.Properties.C01_none"
@@ -231,15 +233,17 @@ PROPS["C12"] = {
 
 PROPS["C13"] = {
     "title": "Transforms: exact inverse pairs, in bounds, clean decline", "design_ref": "5.13", "level": "proof",
-    "technique": "PARTIAL Lean proof: Null, ZRLT, SBRT (all modes), RLT (incl. totality of Inverse on arbitrary input), SRT, PACK/DNA (alias codec) and the transform sequence with skip flags proved as inverse pairs with output bounds; byte-identical differential tie; all 19 transforms searched directly with canaries",
+    "technique": "PARTIAL Lean proof: Null, ZRLT, SBRT (all modes), RLT (incl. totality of Inverse on arbitrary input), SRT, PACK/DNA (alias codec), LZP, MM and the transform sequence with skip flags proved as inverse pairs with output bounds; byte-identical differential tie; all 19 transforms searched directly with canaries",
     "facts": ["Consts"],
     "theorems": T(M13, "C13_null", "C13_zrlt", "C13_zrlt_bytes", "C13_zrlt_no_wrap", "C13_sbrt", "C13_sequence", "C13_sequence_plain", "C13_sequence_all_declined", "C13_sequence_mode_byte", "C13_sequence_len", "C13_sequence_small", "C13_sequence_dst")
                 + T("Kanzi.Properties.C13_rlt", "C13_rlt", "C13_rlt_total", "C13_rlt_bytes", "C13_rlt_shorter")
                 + T("Kanzi.Properties.C13_srt", "C13_srt_header", "C13_srt_header_sharp", "C13_srt_header_bound", "C13_srt", "C13_srt_len", "C13_srt_size_sharp", "C13_srt_total_forward", "C13_srt_bytes", "C13_srt_preprocess_perm", "C13_srt_preprocess_sorted", "C13_srt_inverse_faults_short", "C13_srt_inverse_faults_sum", "C13_srt_inverse_faults_freq")
                 + T("Kanzi.Properties.C13_srt", "C13_srt_total_inverse_partial", partial=True)
-                + T("Kanzi.Properties.C13_alias", "C13_alias", "C13_alias_total", "C13_alias_bytes", "C13_alias_shorter", "C13_alias_any_injective_map", "C13_alias_one_symbol_accepted", "C13_alias_consts") + T(MCT, "transform_consts", "io_consts", "rlt_consts"),
-    "streams": [TRSMALL, RLT, SRT, ALIAS, TRDIRECT],
-    "level_text": "PARTIAL PROOF. Proved for all blocks: Null, ZRLT (output <= MaxEncodedLen, inverse restores), SBRT in every mode; the transform sequence for up to 8 stages and every pattern of declining stages (skip flags in the mode byte or the extra byte recover exactly; all-declined leaves the block; composed MaxEncodedLen bounds the output). Models tied by byte-identical outputs on tens of thousands of blocks. RLT is modelled completely (escape selection, DetectSimpleType, both early declines, 1/2/3-byte run lengths, pending byte, tail) and proved: accepted blocks are strictly shorter, fit MaxEncodedLen and are restored by Inverse into any destination >= the original length, and NEITHER direction can index out of range - Inverse on ARBITRARY input returns ok or a clean error (C13_rlt, C13_rlt_total, C13_rlt_shorter); byte-exact rlt stream (both defects F28/F29 are flagged on the pre-fix file). SRT is modelled completely (Shell sort of the symbols proved to be a sorting permutation, 1..5-byte varint header, rank coding): for every block below 2^31 bytes Forward never declines or faults, its output is at most len+1028 <= MaxEncodedLen bytes (len <= 2^30) and Inverse restores the block (C13_srt, C13_srt_len, C13_srt_size_sharp); Inverse cannot fault on a well-formed header (C13_srt_total_inverse_partial - PARTIAL: on malformed input it DOES index out of range, proved as C13_srt_inverse_faults_*; such faults are outside C13 and are recovered by the decoding task, see DESIGN §6 observations); byte-exact srt stream. The alias codec (PACK and DNA) is modelled completely (one-symbol, 2-bit and 4-bit packing, the digram path with its order-1 histogram, merge sort and alias map, every decline, the dataType write-back): accepted blocks are strictly shorter, fit MaxEncodedLen and are restored exactly for both variants and every hint; correctness holds for ANY injective alias map onto unused bytes (C13_alias_any_injective_map); Forward never faults, Inverse never faults on a Forward output, and on arbitrary input it faults exactly when the decidable predicate invSafe is false (C13_alias_total; those malformed-input faults are observations, recovered by the decoding task); byte-exact alias stream. NOT modelled: BWT/BWTS, LZ/LZX/LZP, ROLZ/ROLZX, TEXT, UTF, EXE, MM - searched directly on the real code (trdirect: every transform and the CLI chains, pipeline buffer sizes with canaries, input-intact checks, data-type hints, all data shapes).",
+                + T("Kanzi.Properties.C13_alias", "C13_alias", "C13_alias_total", "C13_alias_bytes", "C13_alias_shorter", "C13_alias_any_injective_map", "C13_alias_one_symbol_accepted", "C13_alias_consts")
+                + T("Kanzi.Properties.C13_lzp", "C13_lzp", "C13_lzp_sync", "C13_lzp_total", "C13_lzp_bytes", "C13_lzp_shorter")
+                + T("Kanzi.Properties.C13_fsd", "C13_fsd", "C13_fsd_total", "C13_fsd_bytes", "C13_fsd_any_choice", "C13_fsd_zigzag", "C13_fsd_zigzag_delta") + T(MCT, "transform_consts", "io_consts", "rlt_consts"),
+    "streams": [TRSMALL, RLT, SRT, ALIAS, LZP, FSD, TRDIRECT],
+    "level_text": "PARTIAL PROOF. Proved for all blocks: Null, ZRLT (output <= MaxEncodedLen, inverse restores), SBRT in every mode; the transform sequence for up to 8 stages and every pattern of declining stages (skip flags in the mode byte or the extra byte recover exactly; all-declined leaves the block; composed MaxEncodedLen bounds the output). Models tied by byte-identical outputs on tens of thousands of blocks. RLT is modelled completely (escape selection, DetectSimpleType, both early declines, 1/2/3-byte run lengths, pending byte, tail) and proved: accepted blocks are strictly shorter, fit MaxEncodedLen and are restored by Inverse into any destination >= the original length, and NEITHER direction can index out of range - Inverse on ARBITRARY input returns ok or a clean error (C13_rlt, C13_rlt_total, C13_rlt_shorter); byte-exact rlt stream (both defects F28/F29 are flagged on the pre-fix file). SRT is modelled completely (Shell sort of the symbols proved to be a sorting permutation, 1..5-byte varint header, rank coding): for every block below 2^31 bytes Forward never declines or faults, its output is at most len+1028 <= MaxEncodedLen bytes (len <= 2^30) and Inverse restores the block (C13_srt, C13_srt_len, C13_srt_size_sharp); Inverse cannot fault on a well-formed header (C13_srt_total_inverse_partial - PARTIAL: on malformed input it DOES index out of range, proved as C13_srt_inverse_faults_*; such faults are outside C13 and are recovered by the decoding task, see DESIGN §6 observations); byte-exact srt stream. The alias codec (PACK and DNA) is modelled completely (one-symbol, 2-bit and 4-bit packing, the digram path with its order-1 histogram, merge sort and alias map, every decline, the dataType write-back): accepted blocks are strictly shorter, fit MaxEncodedLen and are restored exactly for both variants and every hint; correctness holds for ANY injective alias map onto unused bytes (C13_alias_any_injective_map); Forward never faults, Inverse never faults on a Forward output, and on arbitrary input it faults exactly when the decidable predicate invSafe is false (C13_alias_total; those malformed-input faults are observations, recovered by the decoding task); byte-exact alias stream. LZP is modelled completely (uint32 context hash, 65536-entry position table, 254-step length coding, both copy branches): accepted blocks are restored by Inverse, and the encoder and decoder hash tables and contexts are proved equal at EVERY step (C13_lzp, C13_lzp_sync); Forward never faults; Inverse on arbitrary input returns data, a clean error or exactly one of two index faults whose conditions are proved (observations). MM (fixed-step delta codec) is modelled completely incl. the magic-number test, the three-window entropy sampling with the real log2 tables and the delta/xor choice: round trip for every (distance, mode) choice (C13_fsd_any_choice), accepted blocks fit and are restored (C13_fsd), and BOTH directions are total - Inverse cannot fault on any input (C13_fsd_total); zigzag tables proved mutually inverse. Byte-exact lzp and fsd streams. NOT modelled: BWT/BWTS, LZ/LZX, ROLZ/ROLZX, TEXT, UTF, EXE - searched directly on the real code (trdirect: every transform and the CLI chains, pipeline buffer sizes with canaries, input-intact checks, data-type hints, all data shapes).",
     "level_note": BASE_NOTE + "'input left unmodified' is immediate in the value-level model and checked on the real buffers by the trdirect oracle.",
     "assumptions": [],
 }
